@@ -36,7 +36,8 @@ Obs == [status |-> E.o.status, escaped |-> E.o.escaped, calls |-> E.o.calls, rep
 What == Eff(E.env).k \o Eff(E.env).v \o "@" \o Src
 
 TRun == /\ l <= Len(T) /\ E.op = "run" /\ Adv
-        /\ Check(tid, l, "H.env", "", E.env.line \in Lines /\ E.env.verb \in 0..3 /\ Len(E.env.listeners) <= 3 /\ E.env.scope \in Scopes /\ E.env.hroute \in {"object", "factory", "method", "callback2", "callback3", "callbackv"})
+        /\ Check(tid, l, "H.env", "", E.env.line \in Lines /\ E.env.verb \in 0..3 /\ Len(E.env.listeners) <= 3 /\ E.env.scope \in Scopes /\ E.env.hroute \in {"object", "factory", "method", "callback2", "callback3", "callbackv", "factory_fn", "factory_class",
+                                             "factory_method", "factory_partial", "factory_callable"})
         /\ Check(tid, l, "P.contained", What, Contained(E.env, Obs))
         /\ Check(tid, l, "P.status.zero", What, ZeroIff(E.env, Obs))
         /\ Check(tid, l, "P.status.clamp", What, Clamped(E.env, Obs))
